@@ -1,17 +1,23 @@
 """C14 - every run is an independent task whose exit always cleans up (fault enumeration).
 
 Workload: task graphs of <= 4 tasks (trigger runs, service calls, task.create children) using
-add/remove_done_callback (plain, sleeping, raising callbacks), unique, executor (value / exception),
-wait_until, sleep, raise, cancel of itself; optionally a waiter task that task.wait()s for the victim
-and reports what it sees.
+add/remove_done_callback (plain, sleeping, raising callbacks; and one method of a script-defined class bound
+to up to three different instances - an observer list - either bound once and kept, or looked up afresh for
+every registration), unique, executor (value / exception), wait_until, sleep (positive, zero and negative
+durations), spin loops around task.sleep(0 / <0 / tiny), raise, cancel of itself; optionally a waiter task that
+task.wait()s for the victim and reports what it sees.  task.create children with the same start instant may be
+created by one spawner run in one go (siblings that are all ready at the same time).
 
 Fault enumeration: the scenario is run once fault-free; then it is re-run with ONE cancellation of
 the victim task placed at every loop pass of the victim's life (capped in the quick tier), through
 pyscript's reaper (what task.cancel/task.unique use) or a raw Task.cancel() (what HA does at stop).
 
 Oracle: bystander runs are unchanged by the victim's fate; the victim's markers are a prefix of its
-fault-free markers; each registered done callback runs exactly once with its arguments; the waiter sees
-the right outcome; at final quiescence pyscript's registries hold nothing for finished tasks.
+fault-free markers; each registered done callback (one per callback function: the same method bound to two
+instances are two functions) runs exactly once with its arguments; the waiter sees the right outcome; at final
+quiescence pyscript's registries hold nothing for finished tasks.  A run that sleeps/waits gives way: every
+task.sleep(), whatever its duration, suspends the run for at least one loop pass, and a run that had already been
+created (and not yet started) when another run went to sleep starts before the sleeper carries on.
 """
 
 from __future__ import annotations
@@ -25,7 +31,10 @@ from ..world import World
 PROPERTY = "C14"
 LEVEL = "fault_enumeration"
 RULE = (
-    "seeded generation of task graphs (<=4 programs of <=7 steps); per scenario one fault-free run plus one run per "
+    "seeded generation of task graphs (<=4 programs of <=7 steps; per scenario knobs: share of done callbacks that are "
+    "bound methods of a script class on different instances and whether they are bound once or looked up per "
+    "registration, share of sleeps with a zero/negative duration, spin loops around task.sleep(<=0), task.create "
+    "siblings spawned in one go); per scenario one fault-free run plus one run per "
     "cancellation point = every loop pass between the victim's start and its end (+2), capped at 40 evenly spread "
     "points in the quick tier, complete in the thorough tier; distinct = scenario digest; non-trivial = at least one "
     "cancellation actually landed on a suspended victim"
@@ -35,6 +44,16 @@ ASSUMPTIONS = [
     "a cancellation that lands while the victim is already running its done callbacks: callbacks after the "
     "interrupted one are don't-care, registry clean-up is still required",
     "timing of bystanders may shift by a few loop passes (slack 50 ms)",
+    "a bound method looked up twice on the SAME instance gives two wrapper objects in pyscript; whether those count "
+    "as 'the same callback function' (replace / remove) is left open by the documentation, so in the 'fresh lookup' "
+    "mode a method of one instance is registered at most once per task and never removed; in the 'bound once' mode "
+    "(the wrapper is kept in a variable) replace and remove are exercised and judged. The same method on two "
+    "DIFFERENT instances are always two callback functions",
+    "task.sleep(d) with d <= 0 is a suspension point of one loop pass (what asyncio.sleep does), never a no-op: the "
+    "markers before and after it must lie in different loop passes",
+    "ready-run rule: a run whose task existed but had not started when another run executed the marker in front of "
+    "a sleep / wait_until / blocking service call must emit its start marker before the sleeper's next marker "
+    "(the event loop serves ready tasks in FIFO order; a run's start marker is reached in its first slice)",
 ]
 TIERS = {
     "quick": {"runs": 200, "chunk": 7, "max_points": 40, "chunk_timeout": 900},
@@ -42,28 +61,56 @@ TIERS = {
 }
 REACH_PROBES = ["cancel_landed", "cancel_in_done_callback", "cancel_during_executor", "cancel_in_wait_until", "cancel_in_blocking_service_call",
                 "cancel_in_sleep", "cancel_before_first_step", "cancel_after_end", "raising_callback_then_other",
-                "waiter_saw_cancelled", "callback_removed", "cancel_by_unique_takeover", "takeover_before_claim"]
+                "waiter_saw_cancelled", "callback_removed", "cancel_by_unique_takeover", "takeover_before_claim",
+                "two_bound_methods_on_one_task", "bound_method_replaced_or_removed", "bound_method_fresh_lookup",
+                "sleep_zero_or_negative", "spin_loop", "cancel_in_sleep0", "siblings_spawned_together",
+                "ready_run_while_other_sleeps", "ready_run_while_other_sleeps0"]
 SHRINK_LISTS = [["spec", "progs"], ["spec", "progs", "*", "steps"]]
 GRID = 0.25
 CB_KINDS = ["plain", "sleep", "raise"]
+METHOD_KINDS = ["m0", "m1", "m2"]  # Watcher.on_done bound to watchers[0..2]
+ZERO_DURS = [0, 0, -1, -0.25]  # task.sleep() durations that ask for "just let the others run"
+SPIN_DURS = [0, 0, -1, 0.001]
+SUSPENDING = ("sleep", "spin", "wait_until", "call_svc")
 
 
 # ------------------------------------------------------------------ generation
-def _gen_steps(rng: random.Random, victim: bool) -> list:
+def _gen_steps(rng: random.Random, victim: bool, knobs: dict | None = None) -> list:
+    knobs = knobs or {}
+    p_method = knobs.get("p_method", 0.0)
+    p_zero = knobs.get("p_zero", 0.0)
+    fresh = knobs.get("method_lookup") == "fresh"
     steps = []
     cb_added = []
+
+    def add_cb(kind):
+        steps.append(["add_cb", kind, rng.randint(1, 99)])
+        cb_added.append(kind)
+
     for _ in range(rng.randint(2, 7)):
         roll = rng.random()
         if roll < 0.3:
-            steps.append(["sleep", rng.choice([0.1, 0.3, 0.6])])
+            dur = rng.choice([0.1, 0.3, 0.6])
+            if rng.random() < p_zero:
+                dur = rng.choice(ZERO_DURS)
+            steps.append(["sleep", dur])
         elif roll < 0.42:
             steps.append(["executor", rng.choice(["ok", "raise"])])
         elif roll < 0.62:
-            kind = rng.choice(CB_KINDS)
-            steps.append(["add_cb", kind, rng.randint(1, 99)])
-            cb_added.append(kind)
+            if rng.random() < p_method:
+                # fresh-lookup mode: one registration per instance (see ASSUMPTIONS)
+                pool = [k for k in METHOD_KINDS if not (fresh and k in cb_added)]
+                if pool:
+                    add_cb(rng.choice(pool))
+                    pool = [k for k in METHOD_KINDS if k not in cb_added]
+                    if pool and rng.random() < 0.5:  # observer fan-out: the next watcher right away
+                        add_cb(rng.choice(pool))
+                    continue
+            add_cb(rng.choice(CB_KINDS))
         elif roll < 0.68 and cb_added:
-            steps.append(["remove_cb", rng.choice(cb_added)])
+            pool = [k for k in cb_added if not (fresh and k in METHOD_KINDS)]
+            if pool:
+                steps.append(["remove_cb", rng.choice(pool)])
         elif roll < 0.76:
             steps.append(["unique"])
         elif roll < 0.82:
@@ -76,7 +123,9 @@ def _gen_steps(rng: random.Random, victim: bool) -> list:
         elif roll < 0.93:
             steps.append(["cancel_self"])
             break
-    if not any(s[0] in ("sleep", "wait_until", "call_svc") for s in steps):
+        elif roll < 0.93 + knobs.get("p_spin", 0.0):
+            steps.append(["spin", rng.randint(2, 4), rng.choice(SPIN_DURS)])
+    if not any(s[0] in ("wait_until", "call_svc") or (s[0] == "sleep" and s[1] > 0) for s in steps):
         steps.insert(rng.randint(0, len(steps)), ["sleep", 0.3])
     return steps
 
@@ -86,11 +135,26 @@ def gen(rng: random.Random, tier: str) -> dict:
     cfg["drift"] = 0.0
     n = rng.randint(1, 4)
     victim = rng.randrange(n)
+    # swarm knobs: which of the rarer constructs this scenario uses, and how densely
+    knobs = {"p_method": rng.choice([0.0, 0.5, 0.7]), "method_lookup": rng.choice(["bound", "fresh"]),
+             "p_zero": rng.choice([0.0, 0.3, 0.6]), "p_spin": rng.choice([0.0, 0.04, 0.07])}
     progs = []
     for tid in range(n):
         progs.append({"tid": tid, "entry": rng.choice(["service", "service", "trigger", "create"]),
-                      "steps": _gen_steps(rng, tid == victim), "ret": rng.randint(100, 199), "k": rng.choice([0, 0, 1, 2])})
-    spec = {"progs": progs, "victim": victim, "waiter": rng.random() < 0.5}
+                      "steps": _gen_steps(rng, tid == victim, knobs), "ret": rng.randint(100, 199),
+                      "k": rng.choice([0, 0, 1, 2])})
+    spec = {"progs": progs, "victim": victim, "waiter": rng.random() < 0.5,
+            "method_lookup": knobs["method_lookup"], "spawn_group": rng.random() < 0.5}
+    if n >= 2 and rng.random() < 0.3:
+        # siblings: two task.create children made by one spawner run in one go; the first-created one gives way
+        # (sleep / spin with a zero or negative duration) before anything else
+        first, second = sorted(rng.sample(range(n), 2))
+        progs[second]["entry"] = progs[first]["entry"] = "create"
+        progs[second]["k"] = progs[first]["k"]
+        spec["spawn_group"] = True
+        if rng.random() < 0.7:
+            head = ["sleep", rng.choice(ZERO_DURS)] if rng.random() < 0.6 else ["spin", rng.randint(2, 4), rng.choice(SPIN_DURS)]
+            progs[first]["steps"].insert(0, head)
     # how the cancellation is delivered: pyscript's reaper, a raw Task.cancel(), or another task taking over one of
     # the two unique names the victim owns (task.unique kills the previous owner)
     fault = {"mode": "enumerate", "via": rng.choice(["reaper", "reaper", "raw", "takeover"]), "iter": None}
@@ -115,6 +179,26 @@ def render(scn: dict) -> dict:
         "    raise ValueError('cb boom')",
         "",
     ]
+    fresh = scn["spec"].get("method_lookup") == "fresh"
+    if any(s[0] in ("add_cb", "remove_cb") and s[1] in METHOD_KINDS for p in scn["spec"]["progs"] for s in p["steps"]):
+        # an observer list: one method, several instances; every bound method is a callback function of its own
+        lines += [
+            "class Watcher:",
+            "    def __init__(self, name):",
+            "        self.name = name",
+            "",
+            "    def on_done(self, tag):",
+            "        sim.mark('cb', self.name, tag, 'start')",
+            "",
+            f"watchers = [{', '.join(f'Watcher({k!r})' for k in METHOD_KINDS)}]",
+        ]
+        lines += [f"cb_{k} = watchers[{i}].on_done" for i, k in enumerate(METHOD_KINDS)] + [""]
+
+    def cb_expr(kind):
+        if kind in METHOD_KINDS and fresh:
+            return f"watchers[{METHOD_KINDS.index(kind)}].on_done"
+        return f"cb_{kind}"
+
     for prog in scn["spec"]["progs"]:
         tid = prog["tid"]
         if prog["entry"] == "trigger":
@@ -141,9 +225,14 @@ def render(scn: dict) -> dict:
                     lines.append("    except KeyError as exc:")
                     lines.append(f"        sim.mark('p', {tid}, 'exec', {idx}, xr=str(exc))")
             elif step[0] == "add_cb":
-                lines.append(f"    task.add_done_callback(task.current_task(), cb_{step[1]}, {step[2]})")
+                lines.append(f"    task.add_done_callback(task.current_task(), {cb_expr(step[1])}, {step[2]})")
             elif step[0] == "remove_cb":
-                lines.append(f"    task.remove_done_callback(task.current_task(), cb_{step[1]})")
+                lines.append(f"    task.remove_done_callback(task.current_task(), {cb_expr(step[1])})")
+            elif step[0] == "spin":
+                # a cooperative loop: every round gives the other runs a chance
+                lines.append(f"    for rnd in range({step[1]}):")
+                lines.append(f"        sim.mark('p', {tid}, 'spin', {idx}, rnd)")
+                lines.append(f"        task.sleep({step[2]})")
             elif step[0] == "unique":
                 # two names: a task may own several; all of them are released when it ends, however it ends
                 lines.append(f"    task.unique('u{tid}')")
@@ -172,11 +261,11 @@ def render(scn: dict) -> dict:
         "    task.unique(name)",
         "",
         "@service",
-        "def spawn(tid=None):",
+        "def spawn(tids=None):",
     ]
     for prog in scn["spec"]["progs"]:
         if prog["entry"] == "create":
-            lines.append(f"    if tid == {prog['tid']}:")
+            lines.append(f"    if {prog['tid']} in tids:")
             lines.append(f"        task.create(p{prog['tid']})")
     lines += [
         "    pass",
@@ -204,6 +293,12 @@ def normalize(scn: dict) -> dict | None:
     progs = scn["spec"]["progs"]
     if not any(p["tid"] == scn["spec"]["victim"] for p in progs):
         return None
+    if scn["spec"].get("method_lookup") == "fresh":
+        # undecided by the documentation (see ASSUMPTIONS): the same instance's method registered twice / removed
+        for prog in progs:
+            adds = [s[1] for s in prog["steps"] if s[0] == "add_cb" and s[1] in METHOD_KINDS]
+            if len(adds) != len(set(adds)) or any(s[0] == "remove_cb" and s[1] in METHOD_KINDS for s in prog["steps"]):
+                return None
     return scn
 
 
@@ -217,9 +312,29 @@ def simplify(scn: dict):
             cand = copy.deepcopy(scn)
             cand["spec"]["progs"][pi]["k"] = 0
             yield cand
+        for si, step in enumerate(prog["steps"]):
+            repl = None
+            if step[0] in ("add_cb", "remove_cb") and step[1] in METHOD_KINDS:
+                repl = [step[0], "plain"] + step[2:]
+            elif step[0] == "sleep" and step[1] <= 0:
+                repl = ["sleep", 0.1]
+            elif step[0] == "spin":
+                repl = ["sleep", step[2]] if step[1] <= 2 else ["spin", step[1] - 1, step[2]]
+            if repl is not None:
+                cand = copy.deepcopy(scn)
+                cand["spec"]["progs"][pi]["steps"][si] = repl
+                yield cand
     if scn["spec"]["waiter"]:
         cand = copy.deepcopy(scn)
         cand["spec"]["waiter"] = False
+        yield cand
+    if scn["spec"].get("spawn_group"):
+        cand = copy.deepcopy(scn)
+        cand["spec"]["spawn_group"] = False
+        yield cand
+    if scn["spec"].get("method_lookup") == "fresh":
+        cand = copy.deepcopy(scn)
+        cand["spec"]["method_lookup"] = "bound"
         yield cand
     for key, val in (("timer_late_ms", 0.0), ("cost_us", 50), ("exec_latency_ms", [0.0, 0.0]), ("set_order_salt", 0)):
         if scn["cfg"].get(key) != val:
@@ -235,9 +350,27 @@ def warmup() -> None:
 
 
 # ------------------------------------------------------------------ one execution
+class C14World(World):
+    """Also remembers when each task was created, as a position in the marker sequence (for the ready-run rule)."""
+
+    def __init__(self, cfg, files):
+        super().__init__(cfg, files)
+        self.task_born: dict[int, int] = {}
+
+    def _task_factory(self, loop, coro, **kwargs):
+        task = super()._task_factory(loop, coro, **kwargs)
+        self.task_born[self.task_label[id(task)]] = len(self.marks)
+        return task
+
+
+def _zeroish(step) -> bool:
+    """A sleep / spin step whose duration asks for nothing but 'let the others run'."""
+    return (step[0] == "sleep" and step[1] <= 0) or (step[0] == "spin" and step[2] <= 0)
+
+
 def execute(scn: dict, k_cancel: int | None) -> dict:
     spec = scn["spec"]
-    w = World(scn["cfg"], render(scn))
+    w = C14World(scn["cfg"], render(scn))
     progs = {p["tid"]: p for p in spec["progs"]}
     vic = spec["victim"]
     obs: dict = {"task_of": {}, "victim": {}, "cancel": None}
@@ -265,8 +398,8 @@ def execute(scn: dict, k_cancel: int | None) -> dict:
         step = info["last"]
         if step is None:
             w.probe("cancel_before_first_step")
-        elif step[0] == "sleep":
-            w.probe("cancel_in_sleep")
+        elif step[0] in ("sleep", "spin"):
+            w.probe("cancel_in_sleep0" if _zeroish(step) else "cancel_in_sleep")
         elif step[0] == "executor":
             w.probe("cancel_during_executor")
         elif step[0] == "wait_until":
@@ -321,17 +454,27 @@ def execute(scn: dict, k_cancel: int | None) -> dict:
         w.loop.exec_job_log = []
         await w.started()
         base = w.loop.vt
+        spawned: set = set()
         for prog in sorted(spec["progs"], key=lambda p: (p["k"], p["tid"])):
+            if prog["tid"] in spawned:
+                continue
             target = base + 0.5 + prog["k"] * GRID
             if target > w.loop.vt:
                 await w.sleep(target - w.loop.vt)
+            tids = [prog["tid"]]
             if prog["entry"] == "service":
                 await w.call_service("pyscript", f"p{prog['tid']}", {}, blocking=False)
             elif prog["entry"] == "create":
-                await w.call_service("pyscript", "spawn", {"tid": prog["tid"]}, blocking=False)
+                if spec.get("spawn_group"):
+                    # all task.create children of this instant are made by ONE spawner run, in one go
+                    tids = [p["tid"] for p in spec["progs"] if p["entry"] == "create" and p["k"] == prog["k"]]
+                    if len(tids) > 1:
+                        w.probe("siblings_spawned_together")
+                spawned.update(tids)
+                await w.call_service("pyscript", "spawn", {"tids": tids}, blocking=False)
             else:
                 w.fire(f"go_{prog['tid']}", {})
-            if prog["tid"] == vic and spec["waiter"]:
+            if vic in tids and spec["waiter"]:
                 await w.passes(4)
                 await w.call_service("pyscript", "waiter", {"tid": vic}, blocking=False)
         await w.sleep(base + 8.0 - w.loop.vt)
@@ -347,6 +490,7 @@ def execute(scn: dict, k_cancel: int | None) -> dict:
         }
         obs["alive_runs"] = sorted(tid for tid, t in obs["task_of"].items() if not t.done())
         obs["exec_jobs"] = list(w.loop.exec_job_log)
+        obs["task_born"] = dict(w.task_born)
 
     w.run(driver)
     obs["w"] = w
@@ -373,6 +517,59 @@ def _expected_callbacks(steps: list, upto: int) -> dict:
         elif step[0] == "remove_cb":
             reg.pop(step[1], None)
     return reg
+
+
+def _dur_class(step) -> str:
+    if step[0] not in ("sleep", "spin"):
+        return "n/a"
+    dur = step[1] if step[0] == "sleep" else step[2]
+    return "zero" if dur == 0 else ("negative" if dur < 0 else "positive")
+
+
+def _give_way(scn: dict, obs: dict, viol) -> None:
+    """A run that sleeps or waits gives way to the others.
+
+    (a) task.sleep() is a suspension point whatever its duration: the marker after it lies in a later loop pass;
+    (b) ready-run rule: a run whose task had been created but had not started when another run executed the marker
+        in front of a sleep / wait_until / blocking call starts before the sleeper's next marker.
+    Only completed suspensions are judged (a cancelled victim has no next marker)."""
+    w = obs["w"]
+    progs = {p["tid"]: p for p in scn["spec"]["progs"]}
+    per: dict = {}
+    for gi, m in enumerate(obs["marks"]):
+        if m["args"][0] == "p" and m["args"][1] in progs:
+            per.setdefault(m["args"][1], []).append((gi, tuple(m["args"][2:]), m["iter"], m["task"]))
+    starts = {}
+    for tid, lst in per.items():
+        if lst[0][1] == ("start",):
+            starts[tid] = (lst[0][0], obs["task_born"].get(lst[0][3]))
+    for tid, lst in sorted(per.items()):
+        steps = progs[tid]["steps"]
+        for (gi, name, it, label), (ngi, nname, nit, nlabel) in zip(lst, lst[1:]):
+            if label != nlabel or name[0] not in ("pre", "spin") or name[1] >= len(steps):
+                continue
+            step = steps[name[1]]
+            if step[0] not in SUSPENDING or (name[0] == "pre") == (step[0] == "spin"):
+                continue  # a spin step suspends after each 'spin' marker, the other steps after their 'pre' marker
+            if step[0] in ("sleep", "spin"):
+                if _zeroish(step):
+                    w.probe("sleep_zero_or_negative")
+                if step[0] == "spin":
+                    w.probe("spin_loop")
+                if nit <= it:
+                    viol("C14.sleep_did_not_suspend", {"dur": _dur_class(step), "form": step[0]},
+                         f"p{tid} step {name[1]} {step}: markers {name} and {nname} ran in the same loop pass {it}: "
+                         f"task.sleep() returned without letting any other run, or the reaper, execute")
+            for other, (sgi, born) in sorted(starts.items()):
+                if other == tid or born is None or not born <= gi < sgi:
+                    continue
+                w.probe("ready_run_while_other_sleeps0" if _zeroish(step) else "ready_run_while_other_sleeps")
+                if sgi > ngi:
+                    viol("C14.ready_run_delayed", {"sleeper_step": step[0], "dur": _dur_class(step),
+                                                   "entry": progs[other]["entry"]},
+                         f"p{other} ({progs[other]['entry']}) existed and was ready to start when p{tid} went into "
+                         f"step {name[1]} {step} (marker #{gi}), but p{tid} carried on (marker #{ngi} {nname}) before "
+                         f"p{other} started (marker #{sgi})")
 
 
 def judge(scn: dict, obs: dict, base: dict | None, sub: str) -> list:
@@ -476,6 +673,13 @@ def judge(scn: dict, obs: dict, base: dict | None, sub: str) -> list:
         got_kinds = [k for k, _ in started]
         if any(s[0] == "remove_cb" for s in steps[:n_exec]):
             w.probe("callback_removed")
+        if sum(1 for k in exp if k in METHOD_KINDS) >= 2:
+            w.probe("two_bound_methods_on_one_task")
+        meth_ops = [s[1] for s in steps[:n_exec] if s[0] in ("add_cb", "remove_cb") and s[1] in METHOD_KINDS]
+        if len(meth_ops) != len(set(meth_ops)):
+            w.probe("bound_method_replaced_or_removed")
+        if meth_ops and spec.get("method_lookup") == "fresh":
+            w.probe("bound_method_fresh_lookup")
         for kind, tag in exp.items():
             cnt = sum(1 for k, t in started if k == kind)
             if cnt == 1:
@@ -496,6 +700,8 @@ def judge(scn: dict, obs: dict, base: dict | None, sub: str) -> list:
                 viol("C14.callback_ran_twice", {"kind": kind}, f"p{tid} callback cb_{kind} ran {cnt} times")
         for kind in set(got_kinds) - set(exp):
             viol("C14.callback_unexpected", {"kind": kind}, f"p{tid} callback cb_{kind} ran but was not registered/was removed: {exp}")
+    # ---- sleeping / waiting runs give way
+    _give_way(scn, obs, viol)
     # ---- waiter
     if spec["waiter"]:
         saw = [m for m in obs["marks"] if m["args"][:2] == ["waiter", "saw"]]
